@@ -96,7 +96,7 @@ func extractArchiver() {
 	// synchronous WARC writing: the feedback channel is created unless async, and awaited before Archived
 	s.boolean("feedbackChanUnlessAsync", strings.Contains(as, "if!config.Get().WARCWriteAsync{feedbackChan=make(chanstruct{},1)") &&
 		strings.Contains(as, `context.WithValue(req.Context(),"feedback",feedbackChan)`))
-	iWait := strings.Index(as, "<-feedbackChan")
+	iWait := strings.Index(as, "feedbackTime:=time.Now()<-feedbackChan") // the wait of the successful attempt
 	iArch := strings.Index(as, "item.SetStatus(models.ItemArchived)")
 	s.boolean("feedbackAwaitedBeforeArchived", iWait >= 0 && iArch > iWait &&
 		strings.Contains(as, "if!config.Get().WARCWriteAsync{feedbackTime:=time.Now()<-feedbackChan"))
